@@ -273,7 +273,16 @@ func checkC01(c *Ctx) {
 	c.Check(okFlush, "C01-R5", "draw:single-flush", p.pos(draw.Pos()), "exactly one buf.WriteTo(t.tty), on every path after buffering was switched on, and nothing is emitted after it")
 	okOff := false
 	if len(draw.Blocks) > 0 {
-		for _, in := range draw.Blocks[0].Instrs {
+		// the deferred reset is registered where buffering is switched on (same block) or before
+		// it on every path; an early return ahead of both leaves buffering untouched
+		var regs []ssa.Instruction
+		for _, b := range draw.Blocks {
+			if bufOn != nil && !(b == bufOn.Block() || b.Dominates(bufOn.Block())) {
+				continue
+			}
+			regs = append(regs, b.Instrs...)
+		}
+		for _, in := range regs {
 			if d, ok := in.(*ssa.Defer); ok {
 				if cl := staticCallee(&d.Call); cl != nil {
 					for _, st := range storesTo(cl, "tcell.tScreen", "buffering") {
